@@ -1,0 +1,167 @@
+//! Verification hooks - DO NOT USE. Only compiled with the internal `__verif` feature.
+//!
+//! Everything in here is add-only: wrappers that expose otherwise private items with plain
+//! types, so that an external harness can compare them with a formal model.
+#![allow(missing_docs)]
+use std::path::Path;
+
+use crate::utils::file_or_mem_buf::FileOrMemBuf;
+
+/// `FileOrMemBuf<u64>` behind a plain interface.
+pub struct VBuf(FileOrMemBuf<u64>);
+
+impl VBuf {
+    pub fn new(dir: Option<&Path>, capacity: usize) -> std::io::Result<Self> {
+        Ok(Self(FileOrMemBuf::new(dir, capacity)?))
+    }
+    pub fn write_chunk(&mut self, chunk: &[u64]) -> Result<(), String> {
+        self.0.write_chunk(chunk).map_err(|e| format!("{e:?}"))
+    }
+    /// `iter()`, take at most `k` items, drop the iterator.
+    pub fn iter_take(&mut self, k: usize) -> Result<Vec<u64>, String> {
+        let it = self.0.iter().map_err(|e| format!("{e:?}"))?;
+        it.take(k).collect::<Result<Vec<_>, _>>().map_err(|e| format!("{e:?}"))
+    }
+    /// `chunks(size)`, take at most `k` chunks, drop the iterator.
+    pub fn chunks_take(&mut self, size: usize, k: usize) -> Result<Vec<Vec<u64>>, String> {
+        let it = self.0.chunks(size).map_err(|e| format!("{e:?}"))?;
+        it.take(k)
+            .map(|c| c.map(|c| c.into_owned()))
+            .collect::<Result<Vec<_>, _>>()
+            .map_err(|e| format!("{e:?}"))
+    }
+}
+
+// ---------------------------------------------------------------------------------------------
+// Primitives (C20 / C11)
+
+use crate::block::Block;
+use rand::{RngCore, SeedableRng};
+
+/// `transpose_bitmatrix` with runtime dispatch (AVX2 when available).
+pub fn transpose_dispatch(input: &[u8], rows: usize) -> Vec<u8> {
+    let mut out = vec![0u8; input.len()];
+    crate::transpose::transpose_bitmatrix(input, &mut out, rows);
+    out
+}
+/// the portable implementation, regardless of CPU features.
+pub fn transpose_portable(input: &[u8], rows: usize) -> Vec<u8> {
+    let mut out = vec![0u8; input.len()];
+    crate::transpose::portable_transpose_bitmatrix(input, &mut out, rows);
+    out
+}
+/// `Block::clmul` with runtime dispatch: (low, high) as integers (native-endian block <-> u128).
+pub fn clmul_dispatch(a: u128, b: u128) -> (u128, u128) {
+    let (lo, hi) = Block::from(a).clmul(&Block::from(b));
+    (lo.into(), hi.into())
+}
+/// the scalar ("holes") implementation.
+pub fn clmul_scalar(a: u128, b: u128) -> (u128, u128) {
+    crate::block::scalar_clmul128(a, b)
+}
+/// fixed-key correlation-robust hash pi(x) ^ x on raw block bytes.
+pub fn cr_hash(x: [u8; 16]) -> [u8; 16] {
+    crate::crypto::FIXED_KEY_HASH.cr_hash_block(Block::from(x)).into()
+}
+/// fixed-key TCCR hash pi(pi(x) ^ tweak) ^ pi(x) on raw block bytes.
+pub fn tccr_hash(tweak: [u8; 16], x: [u8; 16]) -> [u8; 16] {
+    crate::crypto::FIXED_KEY_HASH.tccr_hash_block(Block::from(tweak), Block::from(x)).into()
+}
+/// `AesRng::from_seed(seed)` followed by the given sequence of `fill_bytes` calls.
+pub fn aes_rng_fill(seed: [u8; 16], lens: &[usize]) -> Vec<Vec<u8>> {
+    let mut rng = crate::crypto::AesRng::from_seed(Block::from(seed));
+    lens.iter().map(|n| { let mut v = vec![0u8; *n]; rng.fill_bytes(&mut v); v }).collect()
+}
+/// the fixed AES key of `FIXED_KEY_HASH`.
+pub fn fixed_key() -> [u8; 16] { 193502124791825095790518994062991136444_u128.to_le_bytes() }
+
+// ---------------------------------------------------------------------------------------------
+// Preprocessing with plain-integer share types (C10)
+
+use crate::channel::Channel;
+use crate::mpc::data_types::{Auth, Delta, Key, Mac, Share};
+use rand_chacha::ChaCha20Rng;
+
+/// One party's authenticated share with plain integers: `macs[j]` authenticates `bit` under party j's key,
+/// `keys[j]` is this party's key for party j's bit; own slot is 0.
+#[derive(Debug, Clone, PartialEq, Eq)]
+pub struct VShare { pub bit: bool, pub macs: Vec<u128>, pub keys: Vec<u128> }
+impl From<&Share> for VShare { fn from(s: &Share) -> Self { VShare { bit: s.0, macs: s.1.0.iter().map(|(m, _)| m.0).collect(), keys: s.1.0.iter().map(|(_, k)| k.0).collect() } } }
+impl From<&VShare> for Share { fn from(s: &VShare) -> Self { Share(s.bit, Auth(s.macs.iter().zip(&s.keys).map(|(m, k)| (Mac(*m), Key(*k))).collect())) } }
+
+/// the shared generators produced by the two coin tosses of `fn_independent_pre`.
+pub struct Pre { two: Vec<Vec<Option<ChaCha20Rng>>>, multi: ChaCha20Rng }
+
+pub async fn pre_init(channel: &impl Channel, i: usize, n: usize) -> Result<Pre, String> {
+    let two = crate::mpc::faand::shared_rng_pairwise(channel, i, n).await.map_err(|e| format!("{e:?}"))?;
+    let multi = crate::mpc::faand::shared_rng(channel, i, n).await.map_err(|e| format!("{e:?}"))?;
+    Ok(Pre { two, multi })
+}
+/// first 16 bytes of every shared stream, to check that all parties derived identical coins (consumes them).
+pub fn pre_fingerprint(pre: &mut Pre) -> Vec<u128> {
+    use rand::Rng;
+    let mut v = vec![pre.multi.random::<u128>()];
+    for row in pre.two.iter_mut() { for g in row.iter_mut().flatten() { v.push(g.random::<u128>()); } }
+    v
+}
+pub async fn fashare(channel: &impl Channel, delta: u128, i: usize, n: usize, l: usize, pre: &mut Pre) -> Result<Vec<VShare>, String> {
+    let s = crate::mpc::faand::fashare((channel, Delta(delta)), i, n, l, &mut pre.two, &mut pre.multi).await.map_err(|e| format!("{e:?}"))?;
+    Ok(s.iter().map(VShare::from).collect())
+}
+pub async fn beaver_aand(channel: &impl Channel, delta: u128, alpha_beta: &[(VShare, VShare)], i: usize, n: usize, pre: &mut Pre, abc: &[VShare]) -> Result<Vec<VShare>, String> {
+    let ab: Vec<(Share, Share)> = alpha_beta.iter().map(|(a, b)| (Share::from(a), Share::from(b))).collect();
+    let abc: Vec<Share> = abc.iter().map(Share::from).collect();
+    let s = crate::mpc::faand::beaver_aand((channel, Delta(delta)), &ab, i, n, ab.len(), &mut pre.multi, &abc).await.map_err(|e| format!("{e:?}"))?;
+    Ok(s.iter().map(VShare::from).collect())
+}
+pub fn bucket_size(l: usize) -> usize { crate::mpc::faand::bucket_size(l) }
+
+// ---------------------------------------------------------------------------------------------
+// Taps: read-only observation of secret / derived values (C04, C06, C07). The sink is thread-local; without a sink a
+// tap is a no-op. `party == usize::MAX` means "the party the harness is currently polling".
+
+use std::cell::{Cell, RefCell};
+
+pub type Sink = Box<dyn FnMut(&str, usize, &[u128])>;
+thread_local! {
+    static SINK: RefCell<Option<Sink>> = const { RefCell::new(None) };
+    static CURRENT: Cell<usize> = const { Cell::new(usize::MAX) };
+}
+pub fn set_sink(s: Option<Sink>) { SINK.with(|k| *k.borrow_mut() = s); }
+pub fn set_current_party(p: usize) { CURRENT.with(|c| c.set(p)); }
+pub fn tap(kind: &str, party: usize, vals: &[u128]) {
+    let p = if party == usize::MAX { CURRENT.with(|c| c.get()) } else { party };
+    SINK.with(|k| { if let Some(f) = k.borrow_mut().as_mut() { f(kind, p, vals) } });
+}
+pub fn tap_bits(kind: &str, party: usize, bits: &[bool]) {
+    let v: Vec<u128> = bits.iter().map(|b| *b as u128).collect();
+    tap(kind, party, &v)
+}
+
+/// tap a whole share buffer: per share `[bit, mac_0, key_0, mac_1, key_1, …]`.
+pub(crate) fn tap_shares(kind: &str, party: usize, buf: &mut FileOrMemBuf<Share>) {
+    let mut out = vec![];
+    if let Ok(it) = buf.iter() {
+        for s in it.flatten() {
+            out.push(s.0 as u128);
+            for (m, k) in s.1.0.iter() { out.push(m.0); out.push(k.0); }
+        }
+    }
+    tap(kind, party, &out);
+}
+
+/// `faand::combine_two_leaky_ands` on plain-integer shares (pure function; C10).
+pub fn combine_two(i: usize, n: usize, t1: (VShare, VShare, VShare), t2: (VShare, VShare, VShare), d: bool) -> Result<(VShare, VShare, VShare), String> {
+    let (x2, y2, z2) = (Share::from(&t2.0), Share::from(&t2.1), Share::from(&t2.2));
+    let r = crate::mpc::faand::combine_two_leaky_ands_v(i, n, (Share::from(&t1.0), Share::from(&t1.1), Share::from(&t1.2)), (&x2, &y2, &z2), d).map_err(|e| format!("{e:?}"))?;
+    Ok((VShare::from(&r.0), VShare::from(&r.1), VShare::from(&r.2)))
+}
+
+pub(crate) fn tap_share_slice(kind: &str, party: usize, shares: &[Share]) {
+    let mut out = vec![];
+    for s in shares {
+        out.push(s.0 as u128);
+        for (m, k) in s.1.0.iter() { out.push(m.0); out.push(k.0); }
+    }
+    tap(kind, party, &out);
+}
